@@ -433,6 +433,8 @@ func (cw *c12Worker) opBuild() {
 
 var errC12Stop = fmt.Errorf("callback stops the read")
 
+var stormFinal sync.Map // private type key -> builder id last registered by a registry storm
+
 func (cw *c12Worker) opReadFile() {
 	it := cw.w.items[cw.rng.Intn(len(cw.w.items))]
 	cname := codecNames[cw.rng.Intn(3)]
@@ -989,6 +991,51 @@ func c12ChildMain(r *Run) {
 					mirror.sreg[k] = v
 				}
 			}
+		}
+		// registry storm: every even goroutine re-registers its own private type again and
+		// again and looks it up after each registration (its own program order: it must see
+		// what it just registered); its odd neighbour keeps building codecs that mention that
+		// very type.  Whatever the neighbour sees is legitimate; the owner's view is not negotiable.
+		if !sequential && round%3 == 1 {
+			var swg sync.WaitGroup
+			for g := 0; g+1 < c12Goroutines; g += 2 {
+				key := 2 * g
+				owner := &c12Worker{w: w, round: round, g: g, rng: rand.New(rand.NewSource(rng.Int63())), mirror: mirror}
+				stop := make(chan struct{})
+				swg.Add(2)
+				go func() {
+					defer swg.Done()
+					defer close(stop)
+					for i := 0; i < 40; i++ {
+						nextVal := int64(1000000 + round*1000 + i)
+						avro.Register(c12PrivTypes[key], c12Builder(2*nextVal)) // even id: a builder that does not re-enter
+						want := fmt.Sprintf("(OReg (Some (BCustom %d)))", 2*nextVal)
+						if got := owner.regLookup(key); got != want {
+							owner.fail("concurrent-result-differs", fmt.Sprintf("private type %d: registered builder %d, the next lookup by the same goroutine answers %s", key, 2*nextVal, got))
+							return
+						}
+						stormFinal.Store(int64(key), 2*nextVal)
+					}
+				}()
+				go func() {
+					defer swg.Done()
+					nb := &c12Worker{w: w, round: round, g: g + 1, rng: rand.New(rand.NewSource(1)), mirror: mirror}
+					for {
+						select {
+						case <-stop:
+							return
+						default:
+							_ = nb.regLookupQuiet(key)
+						}
+					}
+				}()
+			}
+			swg.Wait()
+			stormFinal.Range(func(k, v any) bool {
+				mirror.reg[int(k.(int64))] = v.(int64)
+				return true
+			})
+			resp.Counts["registry-storms"]++
 		}
 		// after the round, alone: every registration made during it is in force (a lookup by
 		// another goroutine that overlapped it may have seen the old or the new state, but
